@@ -50,3 +50,25 @@ func (m *Machine) VerifTopology() S {
 }
 
 func slicesClone(s S) S { return append(S{}, s...) }
+
+// VerifSetActive places the machine in the given ordered active set: the
+// active list is taken as is and every tick is moved (by at most 1) so that
+// its parity matches.
+func (m *Machine) VerifSetActive(states S) {
+	m.activeStatesMx.Lock()
+	defer m.activeStatesMx.Unlock()
+	m.schemaMx.Lock()
+	defer m.schemaMx.Unlock()
+	m.activeStates = slicesClone(states)
+	for _, name := range m.stateNames {
+		active := false
+		for _, s := range states {
+			if s == name {
+				active = true
+			}
+		}
+		if IsActiveTick(m.clock[name]) != active {
+			m.clock[name]++
+		}
+	}
+}
